@@ -10,11 +10,11 @@
 //@ decides: C12: iteration yields previous-data values, then current-data values, then new values; generation-major inside each source, insertion order inside a generation, whatever order the values were added in
 //@ decides: C13: after n additions the stream holds exactly n values, each once; the size limit error appears exactly when the cumulative size reaches STREAM_MAX_SIZE
 //@ outside: compactify / generation renumbering written back to the trace (needs TraceHandler with rich states); RecursiveStreamCursor over ValueAggregate iterables
-//@ harness: name=c01_stream_generation_bounded props=C01 panicfree=1 cap=900 cost=60 sym="generation: any u32 outside 4..1023; source previous/current: any" bound="one addition into a stream holding one value"
-//@ harness: name=c12_stream_iteration_order props=C12,C13 cap=1800 cost=300 sym="tags of 5 values: any u8; four scrambled (concrete) insertion orders" bound="previous generations {0,2}, current {1}, one new value"
-//@ harness: name=c13_cursor_sees_values_added_later props=C13,C09,C12 cap=1800 cost=200 sym="generation (0..=2) of one previous-data and one current-data value (sparse matrices); the later value: source previous/current/new and a later generation (<= 3)" bound="3 values; generations <= 3"
-//@ harness: name=c13_stream_size_limit_exact props=C13 cap=900 cost=60 sym="sizes of the three sources: any usize with sum < 2^20" bound="sizes set directly in the matrices (no 1024 insertions)"
-//@ harness: name=c13_generation_from_data props=C13,C12 cap=300 cost=10 sym="generation: any u32; source: previous/current" bound="none"
+//@ harness: name=c01_stream_generation_bounded playback=1 props=C01 panicfree=1 cap=900 cost=60 sym="generation: any u32 outside 4..1023; source previous/current: any" bound="one addition into a stream holding one value"
+//@ harness: name=c12_stream_iteration_order playback=1 props=C12,C13 cap=1800 cost=300 sym="tags of 5 values: any u8; four scrambled (concrete) insertion orders" bound="previous generations {0,2}, current {1}, one new value"
+//@ harness: name=c13_cursor_sees_values_added_later playback=1 props=C13,C09,C12 cap=1800 cost=200 sym="generation (0..=2) of one previous-data and one current-data value (sparse matrices); the later value: source previous/current/new and a later generation (<= 3)" bound="3 values; generations <= 3"
+//@ harness: name=c13_stream_size_limit_exact playback=1 props=C13 cap=900 cost=60 sym="sizes of the three sources: any usize with sum < 2^20" bound="sizes set directly in the matrices (no 1024 insertions)"
+//@ harness: name=c13_generation_from_data playback=1 props=C13,C12 cap=300 cost=10 sym="generation: any u32; source: previous/current" bound="none"
 
 use super::*;
 
